@@ -4,9 +4,10 @@ CONSTANTS
   MaxSlot = 13
   MaxGen = 4
   MaxFaults = 4
+  MaxPersist = 3
   Variants = 2
   Kinds = {"att", "blk"}
-  FaultKinds = {"crash", "crashafter", "fail", "rerr", "rmiss"}
+  FaultKinds = {"crash", "crashafter", "fail", "failall", "rerr", "rmiss"}
   Weaken = "none"
 INVARIANT TypeOK
 INVARIANT NoSlashable
